@@ -41,7 +41,7 @@ INVARIANT OolRefines
 CHECK_DEADLOCK FALSE
 """
 
-BROKEN = ("strict", "susort", "nolen", "dollar", "negmask")
+BROKEN = ("strict", "susort", "nolen", "dollar", "negmask", "signedlowbyte")
 
 
 def q(names):
@@ -62,14 +62,15 @@ SCENARIOS = {
     # typedef chains, forward then completed struct, FILE
     "q_types": dict(NONE, td=("t1", "t2"), tags=("s1",), feat=("file", "fwd"), n=2),
     # enums, constants, functions and globals using a typedef
-    "q_consts": dict(NONE, td=("t1",), en=("e1",), k=("k1",), fn=("f1",), gv=("g1",), n=2),
+    # + array lengths around the byte boundaries of the 4-byte length slot (typedefs and variables)
+    "q_consts": dict(NONE, td=("t1",), en=("e1",), k=("k1",), fn=("f1",), gv=("g1",), feat=("biglen",), n=2),
     # the 64-bit boundary values as #define / static const / enumerators (enum base types up to unsigned long)
     "q_big": dict(NONE, td=("t1",), en=("e1",), k=("k1",), feat=("bigconst",), n=2),
     # anonymous aggregates, bit-fields, arrays, function pointers
     "q_rich": dict(NONE, td=("t1",), tags=("s1",), feat=("anon", "bits", "arr", "nested"), n=2),
     "q_fn": dict(NONE, td=("t1",), fn=("f1",), gv=("g1",), feat=("fnp", "file"), n=2),
     # non-vacuity: "strict" and the broken variants must be caught somewhere in here
-    "sanity": dict(NONE, td=("t1",), k=("k1",), feat=("file", "arr", "anon", "bigconst"), n=1),
+    "sanity": dict(NONE, td=("t1",), k=("k1",), feat=("file", "arr", "anon", "bigconst", "biglen"), n=1),
     # ---- thorough tier
     "types2": dict(NONE, td=("t1", "t2"), tags=("s1", "s2"), prims=("int", "char"), feat=("file", "fwd", "union"), n=2),
     "all2": dict(td=("t1", "t2"), tags=("s1", "s2"), en=("e1",), k=("k1",), fn=("f1",), gv=("g1",),
@@ -199,10 +200,11 @@ def run_cases(ctx, behs, libpath, jobs, first_id=1):
     work = os.path.join(ctx.tmp, "mods")
     os.makedirs(work, exist_ok=True)
     args = [(i + first_id, b, libpath, work, ctx.rng.randrange(8)) for i, b in enumerate(behs)]
-    if jobs <= 1:
-        return [run_case(a) for a in args]
-    with ProcessPoolExecutor(jobs) as ex:
-        return list(ex.map(run_case, args, chunksize=max(1, len(args) // (jobs * 8))))
+    def crashed(a, exitcode):
+        # the process died while building / observing this behaviour (the in-line FFI alone never does)
+        return {"id": a[0], "beh": a[1], "emit": "error:crash(exit code %s)" % exitcode, "emit_msg": "worker process died",
+                "inl": {}, "ool": {}, "same": {}, "tables": {}}
+    return mg.run_parallel(run_case, args, jobs, crashed)
 
 
 # --------------------------------------------------------------------------- verdicts by TLC
@@ -367,9 +369,11 @@ class Gen:
             return ["ptr", self.ty(depth + 1, byval=False)]
         if c < 0.8 and arr_ok:
             item = self.ty(depth + 1, byval=True)
-            n = r.choice([1, 2, 3, 7, 100, 65536])
+            # lengths around the byte boundaries of the 4-byte length slot of generated modules
+            lens = [1, 2, 3, 7, 100, 127, 128, 130, 200, 255, 256, 1000, 65535, 65536, 65736]
+            n = r.choice(lens)
             while n > 1 and n * self.approx_size(self.res(item)) > self.LIMIT:
-                n = {65536: 100, 100: 7, 7: 3, 3: 2, 2: 1}[n]
+                n = lens[lens.index(n) - 1]
             return ["arr", item, n]
         if c < 0.9:
             n = r.randrange(0, 4)
@@ -504,6 +508,42 @@ class Gen:
             self.beh.append({"a": "DeclGlobal", "n": name, "t": t})
 
 
+def wide_behaviour(rng, narrays=45, nfuncs=8, nargs=18):
+    """A cdef whose type table has about 300 slots, so that the index of the slot of every struct /
+    enum / typedef, type indexes in fields and signatures, and array lengths pass 0x80 in their low
+    byte and 0x100.  The function sequences come first in the table (nfuncs * (nargs + 2) slots, cheap
+    for the model: few distinct types), so everything else sits behind them: `narrays` typedefs of char
+    arrays of distinct lengths (2 slots each), enums, structs with fields of these types, variables."""
+    lens = [127, 128, 130, 200, 255, 256, 1000, 65535, 65736]
+    pool = [n for n in range(1, 4 * narrays) if n not in lens]
+    rng.shuffle(pool)
+    lens = (lens + pool)[:narrays]
+    rng.shuffle(lens)
+    beh = []
+    for i, n in enumerate(lens):
+        beh.append({"a": "DeclTypedef", "n": "t%d" % (i + 1), "t": ["arr", ["prim", "char"], n]})
+    tds = ["t%d" % (i + 1) for i in range(narrays)]
+    for e in range(1, 4):
+        beh.append({"a": "DeclEnum", "tag": "e%d" % e, "names": ["E%d_%d" % (e, j) for j in range(2)],
+                    "vals": [str(rng.randrange(-5, 100)) for _ in range(2)]})
+    for k in range(1, 7):
+        kind = "union" if k == 3 else "struct"
+        fs = [["a", ["td", rng.choice(tds)], -1], ["b", ["ptr", ["td", rng.choice(tds)]], -1],
+              ["c", ["enum", "e%d" % rng.randrange(1, 4)], -1], ["d", ["prim", "int"], rng.randrange(1, 32) if kind == "struct" else -1]]
+        if k > 1:
+            fs.append(["e", ["ptr", ["struct" if k - 1 != 3 else "union", "s%d" % (k - 1)]], -1])
+        beh.append({"a": "DeclStruct", "kind": kind, "tag": "s%d" % k, "fs": fs})
+    argpool = [["prim", "int"], ["prim", "double"], ["ptr", ["prim", "char"]], ["enum", "e1"], ["enum", "e3"],
+               ["ptr", ["struct", "s1"]], ["ptr", ["union", "s3"]], ["struct", "s2"], ["ptr", ["td", tds[0]]],
+               ["ptr", ["td", tds[-1]]], ["ptr", ["void"]]]
+    for f in range(nfuncs):
+        beh.append({"a": "DeclFunc", "n": mg.POOL_FUNCS[f], "res": rng.choice(argpool),
+                    "args": [rng.choice(argpool) for _ in range(nargs)], "ell": False})
+    for g in range(3):
+        beh.append({"a": "DeclGlobal", "n": mg.POOL_GLOBS[g], "t": ["td", rng.choice(tds)]})
+    return beh
+
+
 def random_behaviour(rng, length):
     g = Gen(rng)
     tries = 0
@@ -594,7 +634,16 @@ def run(ctx):
     # ---------------------------------------------------------------- code -> spec at real sizes
     nrand = 24 if quick else 120
     rbehs = [random_behaviour(ctx.rng, ctx.rng.randrange(3, 11 if quick else 18)) for _ in range(nrand)]
+    # two wide ones per run: type tables of > 130 and > 260 slots
+    # wide ones: type tables of > 260 slots (slot indexes on both sides of 0x80 and 0x100)
+    nwide = 1 if quick else 6
+    rbehs += [wide_behaviour(ctx.rng) for _ in range(nwide)]
     allrecs = run_cases(ctx, behs + rbehs, libpath, jobs)
+    for r in allrecs[-nwide:]:
+        nslots = len(r.get("tables", {}).get("types", []))
+        if r["emit"] == "ok" and nslots <= 260:
+            raise core.MachineryError("wide behaviour has only %d type slots" % nslots)
+    ctx.cov["wide_type_tables"] = [len(r.get("tables", {}).get("types", [])) for r in allrecs[-nwide:]]
     recs, rrecs = allrecs[:len(behs)], allrecs[len(behs):]
     for r in allrecs:
         ctx.case(mg.beh_key(r["beh"]))
@@ -609,7 +658,7 @@ def run(ctx):
                     "verdict": [sorted(map(list, verdicts[r["id"]][0])), sorted(map(list, verdicts[r["id"]][1]))]
                     if r["id"] in verdicts else None}, limit=3)
     rdivs, rgf = judge(ctx, rrecs, verdicts, "random generator")
-    if rgf > nrand // 3:
+    if rgf > nrand // 3 or any(c == "guard" for r in rrecs[-nwide:] for (c, _, _) in verdicts[r["id"]][0]):
         raise core.MachineryError("random generator: %d of %d behaviours violate the specification's guards" % (rgf, nrand))
     ctx.cov["random_guard_rejects"] = rgf
     if rrecs:
